@@ -742,6 +742,26 @@ func TestC04_ParenthesesOverride(t *testing.T) {
 			}
 			parens++
 		}
+		if rapid.IntRange(0, 5).Draw(rt, "chainCall") == 0 {
+			// v ~> ($mk(k)) applies the function that $mk(k) returns to v;
+			// v ~> $mk(k) calls $mk(v, k): the parentheses decide
+			k := ast.NumN(float64(rapid.IntRange(1, 7).Draw(rt, "ck")))
+			mk := assign("mk", ast.LambdaN([]string{"n", "m"}, "", ast.LambdaN([]string{"v"}, "", ast.ArrN(ast.VarN("v"), ast.VarN("n"), ast.CallN("exists", ast.VarN("m"))))))
+			var rhs *ast.Node = ast.CallE(ast.VarN("mk"), k)
+			switch rapid.IntRange(0, 2).Draw(rt, "chainParens") {
+			case 0:
+				rhs = ast.BlockN(rhs)
+				parens++
+			case 1:
+				rhs = ast.BlockN(ast.BlockN(rhs))
+				parens++
+			}
+			use := ast.N(ast.Chain, ast.NameN("x"), rhs)
+			if rapid.Bool().Draw(rt, "chainApplied") {
+				use = ast.ArrN(use, ast.CallN("type", ast.N(ast.Chain, ast.NumN(5), rhs.Clone())))
+			}
+			prog = ast.BlockN(mk, use)
+		}
 		c := mkDiff(prog, doc, true)
 		p, r, m, skip := diffRun(c)
 		if skip {
